@@ -55,12 +55,16 @@ FN_PICKLE = [('H2O.pickle', 'plain'),
              ('48Ti-16O.R15000.TauREx.pickle', 'iso+two-letter-element'),
              ('12C4-1H10.pickle', 'iso+two-digit-count'),
              ('1H2-16O__POKAZATEL.R15000_0.3-50mu.xsec.TauREx.pickle', 'underscore-upper-suffix'),
-             ('H2O_R15000.pickle', 'underscore-upper-suffix')]
+             ('H2O_R15000.pickle', 'underscore-upper-suffix'),
+             # deuterated isotopologues written with D (a symbol without an entry in the table of atomic masses)
+             ('HDO.pickle', 'deuterium'), ('HDO_VTT.R100.TauREx.pickle', 'deuterium'), ('CH3D.pickle', 'deuterium'),
+             ('D2O.R15000.TauREx.pickle', 'deuterium')]
 FN_H5 = [('H2O_R1000.h5', 'h5'), ('1H2-16O__POKAZATEL__R15000_0.3-50mu.xsec.TauREx.hdf5', 'hdf5')]
-FN_EXO = [('opacH2O.dat', 'plain'), ('opacTiO.dat', 'two-letter-element'), ('opacC2H2.dat', 'plain')]
+FN_EXO = [('opacH2O.dat', 'plain'), ('opacTiO.dat', 'two-letter-element'), ('opacC2H2.dat', 'plain'),
+          ('opacHDO.dat', 'deuterium')]
 FN_KPICKLE = [('H2O.pickle', 'plain'),
               ('H2O.R100.ktable.TauREx.pickle', 'dot-suffix'),
-              ('H2O_R100.ktable.TauREx.pickle', 'underscore-upper-suffix')]
+              ('H2O_R100.ktable.TauREx.pickle', 'underscore-upper-suffix'), ('HDO.R100.ktable.TauREx.pickle', 'deuterium')]
 FN_KH5 = [('H2O_R1000.h5', 'underscore'),
           ('1H2-16O__POKAZATEL__R1000_0.3-50mu.ktable.petitRADTRANS.h5', 'iso+underscore'),
           ('23Na-1H__Rivlin__R1000.ktable.h5', 'iso+two-letter-element'),
@@ -275,6 +279,9 @@ def xsec_case(case):
 CIA_T = {3: [100.0, 250.0, 400.0], 4: [100.0, 200.0, 350.0, 500.0], 5: [100.0, 200.0, 300.0, 450.0, 600.0],
          6: [60.0, 100.0, 200.0, 300.0, 450.0, 600.0]}
 CIA_WN = [[20.0, 120.0, 270.0], [400.0, 480.0], [700.0, 900.0, 1000.0]]
+# 'touch': every spectral range starts on exactly the wavenumber the one before it ends on (both values are tabulated;
+# at a temperature only one of the two ranges lists, the other's entry there is its zero fill)
+CIA_WN_TOUCH = [[20.0, 120.0, 270.0], [270.0, 480.0], [480.0, 900.0, 1000.0]]
 
 
 def cia_blocks(case):
@@ -288,10 +295,11 @@ def cia_blocks(case):
     if case['mid']:
         b1 = b1[:1] + b1[2:]
     own[1] = b1
+    wns = CIA_WN_TOUCH if case.get('touch') else CIA_WN
     for bi in range(case['nblocks']):
         rows = {}
         for T in temps:
-            v = 10 ** rg.uniform(-0.5, 0.5, size=len(CIA_WN[bi])) * 1e-55
+            v = 10 ** rg.uniform(-0.5, 0.5, size=len(wns[bi])) * 1e-55
             if case['neg'] and bi == 0:
                 v[1] = -v[1]
             if case['neg'] and bi == 1 and len(b1) and T == b1[0]:
@@ -299,7 +307,7 @@ def cia_blocks(case):
                 v[-1] = -v[-1]
             if T in own[bi]:
                 rows[T] = v
-        blocks.append({'wn': CIA_WN[bi], 'rows': rows})
+        blocks.append({'wn': wns[bi], 'rows': rows})
     return temps, blocks, own
 
 
@@ -373,6 +381,17 @@ def cia_case(case):
     # which block owns which column (for the signature of a wrong gap row)
     col_block = np.concatenate([[bi] * len(b['wn']) for bi, b in enumerate(blocks)])[
         np.argsort(np.concatenate([b['wn'] for b in blocks]), kind='stable')]
+    touch = bool(case.get('touch'))
+    ties = [np.nonzero(wn == v_)[0] for v_ in sorted(set(wn.tolist())) if int((wn == v_).sum()) > 1]
+
+    def canon(v):
+        # two tabulated values at one wavenumber have no order: compared as a set
+        v = np.array(v, dtype=float)
+        for idx in ties:
+            if v.shape[-1] == len(wn):
+                v[..., idx] = np.sort(v[..., idx], axis=-1)
+        return v
+
     for fmt, ob in objs.items():
         r.eq(np.asarray(ob.temperatureGrid, float), tg, 'axes', 'axes/cia-%s/temperature' % LBL[fmt], rtol=1e-12)
         r.eq(np.asarray(ob.wavenumberGrid, float), wn, 'axes', 'axes/cia-%s/wavenumber' % LBL[fmt], rtol=1e-12)
@@ -383,6 +402,8 @@ def cia_case(case):
             if not r.check(got.shape == wn.shape, 'shape', 'shape/cia-%s' % LBL[fmt], got=got.shape):
                 continue
             ref = opacfmt.cia_T(table, tg, T)
+            if touch:
+                got, ref = canon(got), (None if ref is None else canon(ref))
             if kind == 'outside':
                 continue
             if kind == 'row':
@@ -402,13 +423,14 @@ def cia_case(case):
                 if i in bad_rows or (i + 1) in bad_rows:
                     continue        # consequence of a row already reported
                 r.eq(got, ref, 'cia-cell', 'cia-%s/cell' % LBL[fmt], atol=1e-80, T=T)
-                r.eq(np.asarray(ob.cia(T, wq), float), opacfmt.lin_wn(wn, ref, wq), 'cia-wngrid',
-                     'cia-%s/wngrid' % LBL[fmt], atol=1e-80, T=T)
+                if not touch:
+                    r.eq(np.asarray(ob.cia(T, wq), float), opacfmt.lin_wn(wn, ref, wq), 'cia-wngrid',
+                         'cia-%s/wngrid' % LBL[fmt], atol=1e-80, T=T)
                 r.nontrivial = True
     if len(objs) == 2:
         for kind, i, T in Tq:
             if kind == 'outside':
-                r.eq(objs['cia'].cia(T), objs['db'].cia(T), 'containers-agree-outside', 'cia/outside-disagree',
+                r.eq(canon(objs['cia'].cia(T)), canon(objs['db'].cia(T)), 'containers-agree-outside', 'cia/outside-disagree',
                      atol=1e-80, T=T)
     return r
 
@@ -536,10 +558,11 @@ def e2_world(which):
 
 
 OPS = {
+    # add-exp: the object added by hand was built with the 'exp' mode (add: with 'linear')
     'xsec': [['path', 'A'], ['path', 'B'], ['interp', 'linear'], ['interp', 'exp'], ['mem', True], ['mem', False],
-             ['get', 'CO'], ['get', 'CO2'], ['add', 'CO'], ['add', 'CO2'], ['clear']],
+             ['get', 'CO'], ['get', 'CO2'], ['add', 'CO'], ['add', 'CO2'], ['clear'], ['add-exp', 'CO']],
     'ktable': [['path', 'A'], ['path', 'B'], ['interp', 'linear'], ['interp', 'exp'],
-               ['get', 'CO'], ['get', 'CO2'], ['add', 'CO'], ['clear']],
+               ['get', 'CO'], ['get', 'CO2'], ['add', 'CO'], ['clear'], ['add-exp', 'CO']],
     'cia': [['path', 'A'], ['path', 'B'], ['path', 'M'], ['path', 'A-list'], ['get', 'H2-He'], ['get', 'H2-H2'], ['add', 'H2-He'],
             ['add', 'H2-H2']],
 }
@@ -585,6 +608,7 @@ def _history(case, which):
     dir_of = dict((os.path.realpath(f), os.path.dirname(os.path.realpath(f))) for f in file_of.values())
     hist = case['hist']
     path_kind = ['str']
+    manual_mode = {}      # molecule -> mode its hand-added object was built with (None: a mode was set since)
 
     def content():
         return sorted((cache.cia_dict if which == 'cia' else cache.opacity_dict).keys())
@@ -596,6 +620,9 @@ def _history(case, which):
     with OpenCounter(w['base']) as oc:
         for step, op in enumerate(hist):
             k = op[0]
+            own_mode = 'linear'
+            if k == 'add-exp':
+                k, own_mode = 'add', 'exp'
             before = content()
             oc.take()
             raised = None
@@ -623,10 +650,10 @@ def _history(case, which):
                 elif k == 'add':
                     t = w['tables']['manual']
                     if which == 'xsec':
-                        new = fx.TinyOp(op[1], t['wn'], t['T'], t['P'], t['x'] * 1e4, 'linear')
+                        new = fx.TinyOp(op[1], t['wn'], t['T'], t['P'], t['x'] * 1e4, own_mode)
                         cache.add_opacity(new)
                     elif which == 'ktable':
-                        new = fx.TinyK(op[1], t['wn'], t['T'], t['P'], t['x'] * 1e4, t['weights'], 'linear')
+                        new = fx.TinyK(op[1], t['wn'], t['T'], t['P'], t['x'] * 1e4, t['weights'], own_mode)
                         cache.add_opacity(new)
                     else:
                         from taurex.cia import PickleCIA
@@ -646,6 +673,10 @@ def _history(case, which):
                 model.configure(['path', op[1].split('-')[0]] if k == 'path' else op)
                 if k != 'path':
                     last_cfg = k
+                if k == 'interp':
+                    # "takes effect for every opacity served afterwards": also for one that was added by hand before
+                    for m_ in manual_mode:
+                        manual_mode[m_] = None
                 if raised is not None:
                     diverged = bad('no-exception', 'cache/%s/raised/%s' % (where, type(raised).__name__),
                                    step=step, exc=repr(raised))
@@ -662,6 +693,7 @@ def _history(case, which):
                     model.commit_add(mol, want)
                     if want == 'registered':
                         objs[mol] = new
+                        manual_mode[mol] = own_mode
             else:
                 mol = op[1]
                 allowed = model.allowed_get(mol)
@@ -714,7 +746,7 @@ def _history(case, which):
                 if outcome != 'raise':
                     name = obj.pairName if which == 'cia' else obj.moleculeName
                     r.check(name == mol, 'name', 'cache/%s/served-name' % which, got=name, want=mol)
-                    mode = 'linear' if src == 'manual' else model.current_mode()
+                    mode = (manual_mode.get(mol) or model.current_mode()) if src == 'manual' else model.current_mode()
                     got, want = _value_probe(which, obj, w['tables'][src], mode)
                     r.observe(got)
                     sig = 'cache/%s/served-values' % which
@@ -736,7 +768,8 @@ def _history(case, which):
     # everything that can influence a later step: the model state, what the cache's own dictionary
     # lists, and whether it still holds the very objects the model registered
     d = cache.cia_dict if which == 'cia' else cache.opacity_dict
-    state = (model.key(), path_kind[0], tuple((m, d[m] is objs.get(m)) for m in content()))
+    state = (model.key(), path_kind[0], tuple((m, d[m] is objs.get(m)) for m in content()),
+             tuple(sorted((m_, str(v_)) for m_, v_ in manual_mode.items() if m_ in content())))
     r.observe(repr(state))
     r.key = None if diverged else repr(state)
     r.extra = None
@@ -911,6 +944,8 @@ def explore(ctx):
                 and not (neg == 1 and fn == FN_CIA[0] and order == 'block' and nb == 2 and layout == 'separate'):
             continue
         ccases.append(c)
+        if nb > 1 and neg == 0 and fn == FN_CIA[0] and layout == 'separate':
+            ccases.append(dict(c, touch=1))
     ctx.bounds.update(cia_cases=len(ccases))
     t0 = time.time()
     ctx.run_cases('cia_case', ccases, phase='cia')
